@@ -18,6 +18,7 @@ import RbV.Lemmas.Expand
 import RbV.Thm.GenSrcLcskpp
 import RbV.Thm.GenSrcSdpkpp
 import RbV.Thm.GenSrcKmerMatches
+import RbV.Thm.GenSrcQGramExact
 /-!
 # C19 — k-mer / q-gram indexing and sparse chaining are exact
 
@@ -415,6 +416,60 @@ example : (hmGet [1, 2] (hashKmers [1, 2, 1, 2] 2)).getD [] = [0, 2] ∧ kmerMat
   rw [hash_kmers_model_exact]; decide
 
 end kmer_hash
+
+/-! ## `QGramIndex::exact_matches` — the source text (`RbV/Gen/SrcQGramExact.lean`, builder gensparse)
+
+`HashMap<i32, ExactMatch>` = `Rs.HMap` (`Entry::Vacant(v) => v.insert(..)` = `insertNew`, `Entry::Occupied(o)` with
+`o.get_mut()` = the record read, updated field by field and written back with `update`); the final loop over the map runs
+over `hmIter diagonals`, an abstract permutation (`hIter`).  `qgramsOf` (= `self.ranks.qgrams(self.q, pattern)`) and
+`qgramMatches` (= `self.qgram_matches`) are abstract: `hM` / `hH` say that position list `P i` is what the index returns for
+the i-th q-gram and that these are the model's hits — what `qgrams_source_eq_model` and `qgram_index_source_positions_exact`
+establish for the translated iterator / index (not composed here); `hB`: positions `+ q` below 2³¹ (the diagonal is an `i32`). -/
+section exact_matches_source
+open RbV.Rs RbV.Thm.GenSrcQGramExact
+
+/-- the translated `exact_matches` does not panic and returns a permutation of the mirror model's vector -/
+theorem qgram_exact_matches_source_eq_model (qgramsOf : Nat → List Nat → List Nat) (qgramMatches : Nat → Res (List Nat))
+    (hmIter : List (Int × EM) → List (Int × EM)) (hIter : ∀ m, (hmIter m).Perm m) (mc q : Nat) (pat text : List Nat) (P : Nat → List Nat)
+    (hM : ∀ ci ∈ (qgramsOf q pat).zipIdx, qgramMatches ci.1 = Res.ok (P ci.2))
+    (hH : hits mc q pat text = ((qgramsOf q pat).zipIdx).flatMap (fun ci => (P ci.2).map (fun p => (ci.2, p))))
+    (hB : ∀ ci ∈ (qgramsOf q pat).zipIdx, ci.2 + q < 2 ^ 31 ∧ ∀ p ∈ P ci.2, p + q < 2 ^ 31) :
+    ∃ res, Gen.SrcQGramExact.exactMatches qgramsOf qgramMatches hmIter q pat = Res.ok res ∧
+      res.Perm ((exactMatchesModel mc q pat text).map cv) :=
+  GenSrcQGramExact.exactMatches_eq_model qgramsOf qgramMatches hmIter hIter mc q pat text P hM hH hB
+
+/-- **the matches the translated `exact_matches` returns are exactly the records of the reference** — the maximal runs of
+consecutive unmasked hits along a diagonal, i.e. (without masking) the maximal exact matches of length ≥ q
+(`exact_matches_are_runs_of_hits`, `exact_matches_are_maximal_exact_matches`) — whatever the iteration order of the map.
+Stated on membership, as the reference theorems are; multiplicities agree with the mirror model's
+(`qgram_exact_matches_source_eq_model`). -/
+theorem qgram_exact_matches_source_exact (qgramsOf : Nat → List Nat → List Nat) (qgramMatches : Nat → Res (List Nat))
+    (hmIter : List (Int × EM) → List (Int × EM)) (hIter : ∀ m, (hmIter m).Perm m) (mc q : Nat) (hq : 0 < q) (pat text : List Nat)
+    (P : Nat → List Nat)
+    (hM : ∀ ci ∈ (qgramsOf q pat).zipIdx, qgramMatches ci.1 = Res.ok (P ci.2))
+    (hH : hits mc q pat text = ((qgramsOf q pat).zipIdx).flatMap (fun ci => (P ci.2).map (fun p => (ci.2, p))))
+    (hB : ∀ ci ∈ (qgramsOf q pat).zipIdx, ci.2 + q < 2 ^ 31 ∧ ∀ p ∈ P ci.2, p + q < 2 ^ 31) :
+    ∃ res, Gen.SrcQGramExact.exactMatches qgramsOf qgramMatches hmIter q pat = Res.ok res ∧
+      ∀ r : ExactRec, cv r ∈ res ↔ r ∈ exactMatchesRef mc q pat text := by
+  obtain ⟨res, h1, h2⟩ := GenSrcQGramExact.exactMatches_eq_model qgramsOf qgramMatches hmIter hIter mc q pat text P hM hH hB
+  refine ⟨res, h1, fun r => ?_⟩
+  rw [h2.mem_iff, ← exact_matches_model_refines mc q pat text hq r]
+  constructor
+  · intro h
+    obtain ⟨r', hr', he⟩ := List.mem_map.mp h
+    have : r' = r := by
+      obtain ⟨a, b, c, d⟩ := r'; obtain ⟨a', b', c', d'⟩ := r
+      simp only [cv, Prod.mk.injEq] at he
+      obtain ⟨⟨rfl, rfl⟩, rfl, rfl⟩ := he; rfl
+    rw [← this]; exact hr'
+  · intro h; exact List.mem_map.mpr ⟨r, h, rfl⟩
+
+/-- evaluated: pattern `abab` against text `ababab`, q = 1 (codes = symbols), reversed map iteration -/
+example : Gen.SrcQGramExact.exactMatches (fun _ pat => pat)
+    (fun c => Res.ok ((List.range 6).filter (fun j => [0, 1, 0, 1, 0, 1].getD j 9 == c))) List.reverse 1 [0, 1, 0, 1]
+    = Res.ok [((2, 4), (0, 2)), ((0, 2), (4, 6)), ((0, 4), (2, 6)), ((0, 4), (0, 4))] := by decide
+
+end exact_matches_source
 
 /-! ## `hash_kmers`, `find_kmer_matches*` — the source text (`RbV/Gen/SrcKmerMatches.lean`, builder gensparse)
 
